@@ -271,4 +271,5 @@ def main():
     bat.finish()
 
 
-main()
+if __name__ == "__main__":
+    main()
